@@ -26,3 +26,24 @@ def getNonEntries(self):
     head = [Interval(0, es[0].start, "")] if es[0].start > 0 else []
     tail = [Interval(es[-1].end, self.maxTimestamp, "")] if es[-1].end < self.maxTimestamp else []
     return head + gaps(es) + tail
+
+
+# ---- validate(): "returns False exactly when ... an out-of-span / out-of-order entry exists" (non-raising modes)
+
+REPORTING_MODES = ("silence", "warning", "error")
+
+
+def IntervalTier_validate(self, reportingMode):
+    if reportingMode not in REPORTING_MODES:
+        raise errors.WrongOption("reportingMode", reportingMode, REPORTING_MODES)
+    es = self.entries
+    return (forall(es, lambda e: e.start < e.end and self.minTimestamp <= e.start and e.end <= self.maxTimestamp)
+            and adjacent(es, lambda a, b: a.end <= b.start))
+
+
+def PointTier_validate(self, reportingMode):
+    if reportingMode not in REPORTING_MODES:
+        raise errors.WrongOption("reportingMode", reportingMode, REPORTING_MODES)
+    ps = self.entries
+    return (forall(ps, lambda p: self.minTimestamp <= p.time and p.time <= self.maxTimestamp)
+            and adjacent(ps, lambda a, b: a.time <= b.time))
